@@ -28,7 +28,7 @@ func (chanSelfWorld) Run(prop string, ch *zsim.Choices, trace bool) *RunResult {
 	wantStuck := false
 	main := func() {
 		s := zsim.S
-		k := ch.Intn(9)
+		k := ch.Intn(10)
 		summary = fmt.Sprintf("scenario=%d", k)
 		fail := func(format string, a ...interface{}) { zsim.Fail("selftest.channels", format, a...) }
 		switch k {
@@ -202,6 +202,27 @@ func (chanSelfWorld) Run(prop string, ch *zsim.Choices, trace bool) *RunResult {
 			zsim.Spawn("lonely sender", func() { zsim.Send(c, 1) })
 			d := make(chan int)
 			zsim.Recv(d)
+		case 9:
+			// a sender parked on a channel (unbuffered, or full) that somebody closes: it panics
+			c := make(chan int, ch.Intn(2))
+			if cap(c) == 1 {
+				c <- 0
+			}
+			panicked := false
+			t := zsim.Spawn("parked sender", func() {
+				defer func() {
+					if recover() != nil {
+						panicked = true
+					}
+				}()
+				zsim.Send(c, 1)
+			})
+			zsim.Settle()
+			zsim.Close(c)
+			zsim.Join(t)
+			if !panicked {
+				fail("a sender parked on a channel that was then closed did not panic")
+			}
 		case 8:
 			// many-to-one over an unbuffered channel with a select on a second one
 			c, quit := make(chan int), make(chan struct{})
